@@ -14,6 +14,7 @@ import MinizProof.Model.VecLoops
 import MinizProof.Model.CStream
 import MinizProof.Model.InflBytes
 import MinizProof.Driver.EncCheck
+import MinizProof.Model.HuffLimit
 namespace Driver
 open Spec
 
@@ -602,6 +603,35 @@ def opIff (a : Acc) (ln : Nat) (l : Line) : Acc := Id.run do
     if !sameBytes res.out (l.bytes "out") then a := a.diff ln l "bytes" s!"model wrote {res.out.size} bytes, implementation {(l.bytes "out").size}, first difference at {firstDiff res.out (l.bytes "out")}"
   return a
 
+/-- `HLIM in=<num_codes before> len=<code_list_len> max=<limit> out=<num_codes after> src=trace|gen`:
+    `enforce_max_code_size` against `Model.HuffLimit.enforce`; for calls the real `optimize_table` made
+    (`src=trace`) the hypotheses of `C10.length_limiting_restores_a_complete_code` are checked too
+    (what `calculate_minimum_redundancy` hands over: the histogram of a prefix code). -/
+def opHlim (a : Acc) (ln : Nat) (l : Line) : Acc := Id.run do
+  let n := l.ints "in"
+  let len := l.nat "len"
+  let max := l.nat "max"
+  let want := l.ints "out"
+  let got := Model.HuffLimit.enforce n len max
+  let mut a := a.bump "hlim"
+  if got != want then
+    a := a.diff ln l "histogram" s!"model {got} vs implementation {want}"
+  let lv := n.drop 1
+  let nonneg := n.all (0 ≤ ·)
+  let k := Model.HuffLimit.kraft lv
+  let full : Int := 2 ^ lv.length
+  let pre := nonneg && k ≤ full && lv.sum == (len : Int) && (len : Int) ≤ 2 ^ max && 1 ≤ max && max + 1 ≤ n.length
+  if pre then a := a.bump "hlim_pre_ok"
+  if pre && k == full then a := a.bump "hlim_complete_in"
+  if pre && (n.drop (max + 1)).any (· != 0) then a := a.bump "hlim_over_limit_in"
+  if pre && Model.HuffLimit.kraft ((n.take (max + 1)).drop 1) + (n.drop (max + 1)).sum > 2 ^ max then a := a.bump "hlim_loop_runs"
+  if l.get "src" == "trace" then
+    a := a.bump "hlim_trace"
+    if len ≥ 2 && !pre then
+      a := a.fail ln l "hlim_pre" s!"optimize_table handed enforce_max_code_size a histogram outside the theorem's hypotheses (nonneg {nonneg}, kraft {k} of {full}, sum {lv.sum}, len {len}, max {max})"
+    if len ≥ 2 && pre && k != full then a := a.bump "hlim_trace_incomplete_in"
+  return a
+
 def dispatch (a : Acc) (ln : Nat) (l : Line) : Acc :=
   match l.op with
   | "ENC" => opEnc a ln l
@@ -622,6 +652,7 @@ def dispatch (a : Acc) (ln : Nat) (l : Line) : Acc :=
   | "IFBNEW" => opIfbNew a l
   | "IFB" => opIfb a ln l
   | "IFF" => opIff a ln l
+  | "HLIM" => opHlim a ln l
   | "" => a
   | "#" => a
   | _ => a.bump ("unknown_op_" ++ l.op)
